@@ -8,6 +8,8 @@ Harness metadata lives next to the harness as `/// @key value` doc lines:
   @fn <repo path>    function(s) under contract
   @assume <text>     assumption / stub used
   @timeout <secs>
+  @stub <callee: contract>   a callee is replaced by its contract through kani::stub (listed as an assumption)
+  @mem <GB>        observed peak memory of the CBMC run (default 4); bounds the parallelism of the group
   @tolerate panic    (C09 short-buffer harnesses) panic-class failures are allowed, memory-safety ones are not
 """
 import os
@@ -48,6 +50,8 @@ class H:
         self.fns = []
         self.assumes = []
         self.timeout = 900
+        self.mem_gb = 4
+        self.stubbed = False
         self.tolerate = None
         self.doc = ""
         self.quickfeats = 1
@@ -61,7 +65,13 @@ def load_harnesses():
             continue
         lines = open(os.path.join(src, fn)).read().split("\n")
         meta = []
+        submod = None
         for ln in lines:
+            mm_ = re.match(r'^pub mod (\w+)\s*\{', ln)
+            if mm_:
+                submod = mm_.group(1)
+            elif ln.startswith("}"):
+                submod = None
             st = ln.strip()
             if st.startswith("///"):
                 meta.append(st[3:].strip())
@@ -69,6 +79,7 @@ def load_harnesses():
             m = re.match(r'(?:pub\s+)?fn\s+(\w+)\s*\(\s*\)', st)
             if m and meta:
                 h = H(m.group(1), fn[:-3])
+                h.path = "%s::%s%s" % (fn[:-3], (submod + "::") if submod else "", m.group(1))
                 doc = []
                 for t in meta:
                     mm = re.match(r'@(\w+)\s*(.*)$', t)
@@ -90,6 +101,11 @@ def load_harnesses():
                         h.assumes.append(v)
                     elif k == "timeout":
                         h.timeout = int(v)
+                    elif k == "mem":
+                        h.mem_gb = int(v)
+                    elif k == "stub":
+                        h.stubbed = True
+                        h.assumes.append("callee replaced by its contract (Kani stub): " + v)
                     elif k == "tolerate":
                         h.tolerate = v
                     elif k == "quickfeats":
@@ -167,6 +183,35 @@ def parse_terse(text):
     return res
 
 
+
+def per_harness_results(text):
+    """With -j N the result blocks are prefixed by "Thread k: " and belong to the harness last announced on thread k.
+    -> {harness: (status, seconds)}   (best effort, used for timing evidence only; verdicts come from the summary)"""
+    cur = {}
+    out = {}
+    th = None
+    for line in text.split("\n"):
+        m = re.match(r'Thread (\d+): Checking harness ([\w:]+)\.\.\.', line)
+        if m:
+            cur[m.group(1)] = m.group(2).split("::")[-1]
+            th = None
+            continue
+        m = re.match(r'Thread (\d+):\s*$', line)
+        if m:
+            th = m.group(1)
+            continue
+        if th is not None and th in cur:
+            m = re.search(r'VERIFICATION:- (SUCCESSFUL|FAILED)', line)
+            if m:
+                out.setdefault(cur[th], [None, 0.0])[0] = m.group(1)
+            m = re.search(r'Verification Time: ([\d.]+)s', line)
+            if m:
+                out.setdefault(cur[th], [None, 0.0])[1] = float(m.group(1))
+            if "timed out" in line or "CBMC failed" in line:
+                out.setdefault(cur[th], ["TIMEOUT", 0.0])[0] = "TIMEOUT"
+    return {k: tuple(v) for k, v in out.items()}
+
+
 def _classify_failed(desc):
     if "unwinding assertion" in desc:
         return "unwind"
@@ -178,7 +223,7 @@ def _classify_failed(desc):
 def playback(h, featset, timeout):
     """Re-run ONE failing harness alone (unambiguous output) for its failed checks and a concrete counterexample.
     -> (vals or None, parsed_result_dict, raw_tail)"""
-    cmd = _base_cmd(featset, ("concrete-playback",)) + ["--harness", h.name, "--concrete-playback=print",
+    cmd = _base_cmd(featset, ("concrete-playback",)) + ["--harness", h.path, "--exact", "--concrete-playback=print",
                                                          "--output-format=terse", "--harness-timeout", "%ds" % timeout]
     try:
         p = subprocess.run(cmd, cwd=KANI_DIR, env=_env(), stdout=subprocess.PIPE, stderr=subprocess.STDOUT,
@@ -241,11 +286,12 @@ def run_group(label, hs, featset, jobs=8):
         return r
     _sync_lock()
     tmo = max(h.timeout for h in hs)
+    # memory budget: the sandbox has 62 GB and no swap; @mem <GB> is the observed peak of a harness
+    jobs = max(1, min(jobs, int(44 // max(h.mem_gb for h in hs))))
     cmd = _base_cmd(featset) + ["--output-format=terse", "-j", str(jobs), "--harness-timeout", "%ds" % tmo]
     for h in hs:
-        cmd += ["--harness", h.name]
-    cmd.append("--exact") if False else None
-    cmd = [c for c in cmd if c is not None]
+        cmd += ["--harness", h.path]
+    cmd.append("--exact")     # --harness alone is a substring filter
     r.cmds.append("cargo kani -Z stubbing [--features %s] --harness <...> (crate /verif/kani, path deps on /repo)" % (FEATURE_SETS[featset] or "<none>"))
     try:
         p = subprocess.run(cmd, cwd=KANI_DIR, env=_env(), stdout=subprocess.PIPE, stderr=subprocess.STDOUT, text=True,
@@ -272,7 +318,9 @@ def run_group(label, hs, featset, jobs=8):
     covers_bad = [m for m in re.findall(r'\*\* (\d+) of (\d+) cover properties satisfied', text) if int(m[0]) < int(m[1])]
     n_ok = len(hs) - len(failed_names)
     r.solver_s += sum(float(x) for x in re.findall(r'Verification Time: ([\d.]+)s', text))
-    r.samples.append({"kani_group": label, "harnesses": len(hs), "verified": n_ok, "cbmc_checks_in_verified_harnesses": ok_checks})
+    times = per_harness_results(text)
+    r.samples.append({"kani_group": label, "harnesses": len(hs), "verified": n_ok, "cbmc_checks_in_verified_harnesses": ok_checks,
+                      "parallel_jobs": jobs, "seconds_per_harness": {k: round(v[1], 1) for k, v in sorted(times.items())}})
     for h in hs:
         oname = "kani::%s[%s]" % (h.name, featset)
         for f in h.fns:
@@ -326,7 +374,12 @@ def run_group(label, hs, featset, jobs=8):
                        replay_cmd="cd /verif/kani && RUSTFLAGS='--cfg lexical_verif' cargo run --offline --bin replay %s-- %s %s" % (
                            ("--features %s " % FEATURE_SETS[featset]) if FEATURE_SETS[featset] else "", h.name,
                            ",".join("".join("%02x" % b_ for b_ in v) for v in vals)))
-            if st == "passed" and "memory" not in classes:
+            if st == "passed" and "memory" not in classes and h.stubbed:
+                # a callee was replaced by its contract: the counterexample's callee results need not be realisable natively.
+                # The obligation passed on the unchanged tree and fails now: report it, without a failing input.
+                cex["confirmed_native"] = False
+                cex["note"] = "harness replaces a callee by its contract (Kani stub); concrete callee results are not replayable"
+            elif st == "passed" and "memory" not in classes:
                 r.obls.append(Obl(oname, label, "kani-cbmc", "undecided", bounded=h.bound,
                                   detail="kani counterexample did not reproduce natively (model artefact?)\n" + detail, cex=cex))
                 continue
